@@ -128,6 +128,20 @@ def answer (items : List Sexp) : Option String := do
         | some c => pure s!"{c} {hexOrDash w.bytes} after={outs.length}"
         | none => pure s!"ok {hexOrDash w.bytes} | {" ".intercalate outs} | rem={s.bs.length}"
     | o => pure o.cls
+  | "axm" =>
+    -- the runtime's own Message impl (ApplicationException {1: message, 2: type}) at top level or nested as field `id` of
+    -- {1: i32 7, id: <exception>, id+1: i64 9}: the bytes are the encoding of that value, the size their number
+    let p ← items[1]? >>= Sexp.asAtom >>= Proto.of
+    let msg ← items[3]? >>= Sexp.asHex
+    let kind ← items[4]? >>= Sexp.asInt
+    let oidA ← items[5]? >>= Sexp.asAtom
+    let exv : TVal := .struct (.cons 1 (.bin msg) (.cons 2 (.i32 kind) .nil))
+    let v ← if oidA == "-" then some exv else do
+      let id ← items[5]? >>= Sexp.asInt
+      pure (TVal.struct (.cons 1 (.i32 7) (.cons id exv (.cons (id + 1) (.i64 9) .nil))))
+    match writeAll p "bm" .bytes [v] with
+    | .ok w => pure s!"ok {hexOrDash w.bytes} size={w.bytes.length}"
+    | o => pure o.cls
   | "lz" =>
     -- the size as the writer itself reports it: its own length machine, either zero_copy flag, the `*_len` twin of any string API
     -- (none of which changes the number: the model has one length machine per wire format)
